@@ -16,6 +16,7 @@ type Knobs struct {
 	GapDays    int  `json:"gap_days,omitempty"`    // root sleeps this long between concurrent and reference pass
 	NoSched    bool `json:"no_sched,omitempty"`    // run client ops sequentially on the root (fault-free baseline)
 	ReuseOpts  bool `json:"reuse_opts,omitempty"`  // the same option VALUES are handed to several Compile / Evaluate calls
+	GYields    bool `json:"gyields,omitempty"`     // statements touching process-wide state are yield points too (worker flag -gyields)
 }
 
 // SysVal describes a FHIRPath System value.
